@@ -39,6 +39,8 @@ def run(ctx):
     ctx.guarded('R19c', c10.CONS, lambda: c10.r10a(_alias(ctx, 'R10a', 'R19c')))
     ctx.guarded('R19d', 'commit after close', lambda: r19d(ctx))
     ctx.guarded('R19e', 'names', lambda: r19e(ctx))
+    ctx.rule('R19f', 'the chunk cache\'s restart scan skips a directory entry whose name is not a cache item name (a leftover temporary file of an interrupted put) instead of failing: the name-parse error is inspected by a match whose Err arm can end in Ok(None), never by `?`')
+    ctx.guarded('R19f', SCAN, lambda: r19f(ctx))
 
 
 def _alias(ctx, frm, to):
@@ -277,3 +279,34 @@ def r19e(ctx):
     t = [l for l in lits if '.tmp' in l]
     ctx.check(len(t) >= 2 and all(l.lstrip('\x00\x01\x02\x03\x04\x05\x06\x07\x08').startswith('.') or '.' in l[:3] for l in t), 'R19e', a.path, 'literal', '-',
               'SafeFileCreator temp names start with "." and end in ".tmp" (%d templates)' % len(t))
+
+
+SCAN = 'chunk_cache::disk::try_parse_cache_file'
+
+
+def r19f(ctx):
+    """C19c: a stop between SafeFileCreator::new and close leaves `.name.rand.tmp` in a key directory; the next
+    initialize must come up (and every complete item stay retrievable)."""
+    a = an(ctx.F.body(SCAN))
+    fn = SCAN
+    ps = a.calls('chunk_cache::disk::cache_item::CacheItem::parse') or [c for c in a.calls() if sg(a.term(c).get('fn', '')).endswith('CacheItem::parse')]
+    if not ctx.check(len(ps) >= 1, 'R19f', fn, 'parse site', '-', 'the directory entry\'s name is parsed as a cache item name'):
+        return
+    rets = a.ret_sites()
+    for cb in ps:
+        tries = a.try_sites(cb)
+        direct = [(b, si) for (b, si, k, e) in rets if k == 'other' and a.err_rooted_at(e, cb)]
+        ctx.check(not tries and not direct, 'R19f', fn, 'not propagated', a.loc((tries or [d[0] for d in direct] or [cb])[0]), 'the name-parse error is not propagated with `?`',
+                  'a directory entry whose name is not a cache item name (e.g. the temporary file of an interrupted put) makes the scan, and with it DiskCache::initialize, fail')
+        err_t = []
+        for b, e, t in a.switches_on(lambda e: e[0] == 'discr' and e[2].startswith('core::result::Result<') and a.err_rooted_at(e[1], cb)):
+            listed = {str(v): tgt for v, tgt in t['ts']}
+            if '1' in listed:
+                err_t.append(listed['1'])
+            elif t['o'] in a.cfg.succ[b]:
+                err_t.append(t['o'])
+        r = a.cfg.reach(err_t) if err_t else set()
+        skip = [(b, si) for (b, si, k, e) in rets if b in r and k == 'ok' and e[0] == 'agg' and e[3] and e[3][0][1][0] == 'agg' and e[3][0][1][2].endswith('Option::None')]
+        some = [(b, si) for (b, si, k, e) in rets if b in r and k == 'ok' and not (e[0] == 'agg' and e[3] and e[3][0][1][0] == 'agg' and e[3][0][1][2].endswith('Option::None'))]
+        ctx.check(bool(err_t) and bool(skip) and not some, 'R19f', fn, 'skipped', a.loc(cb), 'where the name does not parse the entry is skipped: the Err arm returns Ok(None) (possibly after removing the file)',
+                  'no path from the name-parse failure ends in Ok(None): a leftover file is not skipped')
